@@ -11,10 +11,25 @@
         event ::= (0 hist idx val) record produced, hist = () | (t)   | (2) panic | (0) unit
                 | (3 hist ((val idx)...)) collected | (4 first later) inconsistent history
                 | (5) empty | (6 (val...)) derivatives
-   The cross-configuration digests ((18 2 ..) (18 3 ..) (18 4 ..) lines) never reach the model:
-   tools/props/c18.py compares them between executions of the harness. *)
-From Coq Require Import List ZArith NArith Bool.
-From EasyML Require Import Base.Sx Model.Num Model.Tape Model.Determinism.
+   The cross-configuration digests ((18 2 ..) lines) never reach the model:
+   tools/props/c18.py compares them between executions of the harness.
+
+     (18 3 kind ...)         FORMATTED OUTPUT against Model/Format.v; every result is (0 text) with
+                             text = the list of character codes (bytes; everything is ASCII) of
+                             format!("{}", x) when prec = () and of format!("{:.k}", x) when prec = (k).
+                             el: 0 = i64 elements, 1 = the harness-local Tok(i64) (prints "<v>p<k>"
+                             under a precision k).  Data are row-major.
+        (18 3 0 el prec rows cols (v...))          Matrix / MatrixView Display
+        (18 3 1 el prec ((name len)...) (v...))    Tensor / TensorView Display, D <= 3
+        (18 3 2 el prec ((name len)...) (v...) swap)   TensorAccess Display (index_by; D <= 2; swap /= 0
+                                                   and D = 2: the two dimensions exchanged), incl. the
+                                                   "Data Layout = Linear([..])" line
+        (18 3 3 el prec v)                         Record / Trace Display (number only, precision not forwarded)
+        (18 3 4 prec n (l...) (d...))              LDLTDecomposition<i64> Display (from_unchecked)
+        (18 3 5 prec rows cols (v...))             RecordMatrix<i64> and RecordTensor<i64, 2> (names d0 d1)
+                                                   Display: result (0 (text_matrix text_tensor)) *)
+From Coq Require Import List ZArith NArith Bool Arith.
+From EasyML Require Import Base.Sx Model.Num Model.Tape Model.Determinism Model.Format.
 Import ListNotations.
 
 Section Run.
@@ -61,8 +76,84 @@ Definition c18_machine (prog : sx) : sx :=
   end.
 End Run.
 
+(* ---------------------------------------------------------------- (18 3 ..) formatted output *)
+Definition delty (s : sx) : option elty :=
+  match s with SZ 0%Z => Some ElInt | SZ 1%Z => Some ElTok | _ => None end.
+Definition dprec : sx -> option (option N) := dopt dN.
+Definition stext (t : text) : sx := SL [SZ 0%Z; slist sN t].
+Definition dshape : sx -> option (list (nat * nat)) := dlist (dpair dnat dnat).
+
+Fixpoint distinct (l : list nat) : bool :=
+  match l with [] => true | x :: r => negb (existsb (Nat.eqb x) r) && distinct r end.
+Definition valid_shape (sh : list (nat * nat)) : bool :=
+  forallb (fun p => Nat.ltb 0 (snd p)) sh && distinct (map fst sh).
+Definition volume (sh : list (nat * nat)) : nat := fold_left Nat.mul (map snd sh) 1.
+
+Definition c18_format (args : list sx) : sx :=
+  match args with
+  | [SZ 0%Z; el; prec; rows; cols; data] =>
+      match delty el, dprec prec, dnat rows, dnat cols, dlist dZ data with
+      | Some el, Some prec, Some rows, Some cols, Some data =>
+          if Nat.ltb 0 rows && Nat.ltb 0 cols && Nat.eqb (length data) (rows * cols)
+          then stext (fmt_matrix (render el) prec rows cols (flat2 0%Z cols data))
+          else bad_case
+      | _, _, _, _, _ => bad_case
+      end
+  | [SZ 1%Z; el; prec; shape; data] =>
+      match delty el, dprec prec, dshape shape, dlist dZ data with
+      | Some el, Some prec, Some sh, Some data =>
+          if valid_shape sh && Nat.eqb (length data) (volume sh)
+          then match fmt_tensor (render el) prec sh (flatn 0%Z (map snd sh) data) with
+               | Some t => stext t | None => bad_case end
+          else bad_case
+      | _, _, _, _ => bad_case
+      end
+  | [SZ 2%Z; el; prec; shape; data; swap] =>
+      match delty el, dprec prec, dshape shape, dlist dZ data, dbool swap with
+      | Some el, Some prec, Some sh, Some data, Some swap =>
+          if valid_shape sh && Nat.eqb (length data) (volume sh) && Nat.leb (length sh) 2
+          then let src := flatn 0%Z (map snd sh) data in
+               let '(vsh, get) :=
+                 match sh, swap with
+                 | [a; b], true => ([b; a], fun idx => match idx with [i; j] => src [j; i] | _ => src idx end)
+                 | _, _ => (sh, src)
+                 end in
+               match fmt_access (render el) prec vsh get (map fst sh) with
+               | Some t => stext t | None => bad_case end
+          else bad_case
+      | _, _, _, _, _ => bad_case
+      end
+  | [SZ 3%Z; el; prec; v] =>
+      match delty el, dprec prec, dZ v with
+      | Some el, Some prec, Some v => stext (fmt_number (render el) prec v)
+      | _, _, _ => bad_case
+      end
+  | [SZ 4%Z; prec; n; lm; dm] =>
+      match dprec prec, dnat n, dlist dZ lm, dlist dZ dm with
+      | Some prec, Some n, Some lm, Some dm =>
+          if Nat.ltb 0 n && Nat.eqb (length lm) (n * n) && Nat.eqb (length dm) (n * n)
+          then stext (fmt_ldlt (render ElInt) prec n (flat2 0%Z n lm) (flat2 0%Z n dm))
+          else bad_case
+      | _, _, _, _ => bad_case
+      end
+  | [SZ 5%Z; prec; rows; cols; data] =>
+      match dprec prec, dnat rows, dnat cols, dlist dZ data with
+      | Some prec, Some rows, Some cols, Some data =>
+          if Nat.ltb 0 rows && Nat.ltb 0 cols && Nat.eqb (length data) (rows * cols)
+          then match fmt_record_tensor (render ElInt) prec [(0, rows); (1, cols)] (flatn 0%Z [rows; cols] data) with
+               | Some tx => SL [SZ 0%Z; SL [slist sN (fmt_record_matrix (render ElInt) prec rows cols (flat2 0%Z cols data));
+                                            slist sN tx]]
+               | None => bad_case
+               end
+          else bad_case
+      | _, _, _, _ => bad_case
+      end
+  | _ => bad_case
+  end.
+
 Definition run_c18 (args : list sx) : sx :=
   match args with
   | [SZ 1%Z; SZ ty; SZ _layout; prog] => with_ty ty (fun R ops => c18_machine ops prog)
+  | SZ 3%Z :: rest => c18_format rest
   | _ => bad_case
   end.
